@@ -494,7 +494,7 @@ def _pushed_value(b, bb, t):
     return None
 
 
-def _values_reaching(prog, caller, helper):
+def _values_reaching(prog, caller, helper, argi=1):
     """set of enum variants passed as the reason by `caller` to `helper` on the abstract paths of `caller` run on unknown
     arguments, or None when some path passes a value E4 cannot name"""
     from .interp import PathLimit, Unsupported, variant_at
@@ -506,7 +506,7 @@ def _values_reaching(prog, caller, helper):
             return
         call = info["call"]
         if call.callee and (call.callee.get("resolved") or call.callee.get("def")) == helper.id and call.fr.body.id == caller.id:
-            v = variant_at(call.deref(call.args[1])) if len(call.args) > 1 else None
+            v = variant_at(call.deref(call.args[argi])) if len(call.args) > argi else None
             if v:
                 seen.add(v)
             else:
@@ -575,20 +575,27 @@ def rule_capacity(ctx):
             if val and val[0] == "const":
                 latched_values.add(val[1])
             elif val and val[0] == "param":
-                # helper: the values come from its call sites
-                for c in prog.nonderived_bodies():
-                    for cb, ct in c.calls():
-                        if callee_id(ct) == b.id:
-                            v2 = _pushed_value(c, cb, {"args": [None, ct["args"][val[1] - 1]]})
+                # helper: the values come from its call sites (through further helpers that pass their own parameter on)
+                def values_for(hb, pidx, depth=0):
+                    out = set()
+                    for c in prog.nonderived_bodies():
+                        for cb, ct in c.calls():
+                            if callee_id(ct) != hb.id:
+                                continue
+                            v2 = _pushed_value(c, cb, {"args": [None, ct["args"][pidx - 1]]})
                             if v2 and v2[0] == "const":
-                                latched_values.add(v2[1])
+                                out.add(v2[1])
+                            elif v2 and v2[0] == "param" and depth < 4:
+                                out |= values_for(c, v2[1], depth + 1)
                             else:
                                 # the reason is a computed value: the values E4 sees arriving at the helper from this caller
-                                vs = _values_reaching(prog, c, b)
+                                vs = _values_reaching(prog, c, hb, pidx - 1)
                                 if vs is None:
-                                    bad.append("helper %s is called with a non-constant reason in %s" % (b.short, c.short))
+                                    bad.append("helper %s is called with a non-constant reason in %s" % (hb.short, c.short))
                                 else:
-                                    latched_values.update(vs)
+                                    out |= vs
+                    return out
+                latched_values.update(values_for(b, val[1]))
             else:
                 bad.append("cannot determine the value pushed at %s" % where)
             continue
